@@ -66,7 +66,8 @@ Definition explain (c : case) :=
 (* Regeneration histories: the steps of one history are runs over the same output path (all with
    force-file-write: true), each observed right after its run.  Every step is also an ordinary
    case; here the model's [regen] is evaluated over the whole history and compared with what was
-   observed after the last run of every prefix of the history. *)
+   observed after the last run of every prefix of the history (the steps are also checked as
+   ordinary cases by [mismatches]). *)
 Definition settings_of (c : case) : settings :=
   {| s_fmt := c_fmt c; s_tmpl := c_tmpl c; s_bp := c_bp c; s_tags := c_tags c; s_pkg := c_pkg c |}.
 
@@ -76,7 +77,7 @@ Fixpoint hist_ok_from (done : list (bool * settings)) (steps : list case) : bool
   | c :: t =>
     let h := done ++ [(true, settings_of c)] in
     match regen (fun _ => []) None h with
-    | Some content => seqb content (c_obs c) && check_case c && hist_ok_from h t
+    | Some content => seqb content (c_obs c) && hist_ok_from h t
     | None => false
     end
   end.
@@ -112,7 +113,7 @@ Fixpoint all2 {A B} (f : A -> B -> bool) (a : list A) (b : list B) : bool :=
 
 Definition mrun_ok (m : mrun) : bool :=
   all2 (fun r pc => match r with
-                    | Some content => seqb content (c_obs (snd pc)) && check_case (snd pc)
+                    | Some content => seqb content (c_obs (snd pc))
                     | None => false
                     end)
        (run_all (fun _ => []) (fun p => assoc p (m_fs m)) (map job_of (m_files m))) (m_files m).
